@@ -29,8 +29,12 @@ def order_points(pts, order, rng):
         if p == pts and len(p) > 1:
             p = p[1:] + p[:1]
         return p
-    if order == "dup":
-        return pts[:-1] + [pts[0]] if len(pts) > 1 else pts
+    if order == "inner":          # first and last point kept, the points in between in reverse order
+        return pts[:1] + pts[1:-1][::-1] + pts[-1:] if len(pts) > 3 else pts[:1] + pts[1:][::-1]
+    if order == "dup":             # one point twice; the largest position stays in the request (some solvers size their domain by it)
+        if len(pts) >= 3:
+            return pts[:-2] + [pts[0]] + pts[-1:]
+        return pts[-1:] * 2 if len(pts) > 1 else pts
     raise ValueError(order)
 
 
@@ -97,12 +101,21 @@ def replay_class(name, behaviours, tid0, seed):
                 ev["mode"] = op["mode"]
                 kwargs = dict(sp.kwargs)
                 args = sp.args() if callable(sp.args) else sp.args
+                if op["mode"] in ("ok2", "unknown2") and not sp.constructible:
+                    skip = True         # no valid parameter set exists for this class (documented)
+                    break
                 if op["mode"] == "ok2":
                     if not sp.alt:
                         skip = True     # no second parameter set registered for this class
                         break
                     kwargs.update(sp.alt)
                 elif op["mode"] == "unknown":
+                    kwargs["no_such_parameter_xyz"] = 1.0
+                elif op["mode"] == "unknown2":
+                    if not sp.alt:
+                        skip = True
+                        break
+                    kwargs.update(sp.alt)
                     kwargs["no_such_parameter_xyz"] = 1.0
                 elif op["mode"] == "unpublished":
                     inherited = [(p, b) for b in cls.__mro__[1:] for p in getattr(b, "parameters", {})
@@ -178,6 +191,8 @@ def replay_class(name, behaviours, tid0, seed):
             elif op["op"] == "Dump":
                 sol = last.get(op["obj"])
                 if sol is None:
+                    if any(e["op"] == "Call" and e["outcome"] != "ok" for e in out):
+                        break            # the Call raised (reported as such): there is nothing to dump
                     skip = True
                     break
                 fd, path = tempfile.mkstemp(suffix=".csv", dir=os.environ.get("VERIF_TMP"))
